@@ -260,6 +260,12 @@ def tasks(tier, seed=0):
         ts.append(("epilogue_task", dict(kind=kind, kw=kw)))
         ts.append(("roundtrip_task", dict(kind=kind, kw=kw, instance_name=kind)))
     ts.append(("roundtrip_task", dict(kind="logistic", kw=cfgs[0][1], instance_name="my_model")))
+    if tier == "quick":
+        # a square (2x2) and a tall (3x2) parameter matrix: layouts that a reshape / transpose slip in the loader would scramble
+        ts.append(("roundtrip_task", dict(kind="logistic", kw=dict(features=["f 1", "f_2", "3"], source_dimension=2), instance_name="logistic")))
+    else:
+        ts.append(("roundtrip_task", dict(kind="logistic", kw=dict(features=["a", "b", "c", "d"], source_dimension=2), instance_name="logistic")))
+        ts.append(("roundtrip_task", dict(kind="joint", kw=dict(features=["a", "b", "c"], source_dimension=2, nb_events=2), instance_name="joint")))
     return ts
 
 
